@@ -30,6 +30,12 @@ def build_case(rng: random.Random) -> dict:
                            'textblock_set_indentor', 'textblock_given_once']),
         'nested': rng.random() < 0.15,
     }
+    if case['via'] in ('to_list', 'to_str') and rng.random() < 0.25 and case['lines']:
+        # the indenter itself takes any strings: a line may hold a carriage return, a form feed,
+        # a Unicode line separator - characters str.splitlines() would cut at
+        pos = rng.randrange(len(case['lines']))
+        case['lines'][pos] = rng.choice(['a\rb', 'x\x0cy', 'p\u2028q', 'tail\r', '\x0bv', 'n\x85e',
+                                         '\x1cfs'])
     if rng.random() < 0.1:
         case['factory'] = rng.choice(['all_dashes', 'initial_dash'])
         case['mode'] = 'all' if case['factory'] == 'all_dashes' else 'first'
@@ -106,6 +112,8 @@ def eval_case(case: dict) -> dict:
         out['violations'].append({'mechanism': mech, 'detail': detail, 'case': case})
 
     cnt[f'via_{case["via"]}'] = 1
+    if any(ch in ln for ln in case['lines'] for ch in '\r\x0b\x0c\x1c\x85\u2028'):
+        cnt['lines_with_inner_line_boundaries'] = 1
     if case.get('default_override'):
         cnt['width_from_overridden_module_default'] = 1
     cnt[f'mode_{case["mode"]}_{case["indentor"]}'] = 1
@@ -190,7 +198,8 @@ def main(tier: str) -> int:
     per = 1000 if tier == 'quick' else 10000
     run.require('lines_judged', 'to_str_compared', 'headers_checked', 'glyph_wider_than_indent',
                 'mode_none_spaces', 'mode_all_spaces', 'mode_first_spaces', 'mode_none_tab',
-                'mode_all_tab', 'mode_first_tab', 'width_from_overridden_module_default')
+                'mode_all_tab', 'mode_first_tab', 'width_from_overridden_module_default',
+                'lines_with_inner_line_boundaries')
     for _item, res in run.pmap(_worker, [(run.seed, i, per) for i in range(total // per)]):
         if 'harness_error' in res:
             run.mark_inconclusive('harness error: ' + res['harness_error'][-300:])
